@@ -12,6 +12,9 @@ STRUCTS = [
                                ("items", ("array", "Item", None)), ("inner", ("plain", "Inner"))]},
     {"name": "Inner", "attrs": [("n", NUM), ("ok", BOOL)]},
     {"name": "Item", "attrs": [("v", NUM)]},
+    # a twin of Item: same attributes, another name (literals with identical JSON text under
+    # two type names; used in service inputs only, which have no signature)
+    {"name": "Piece", "attrs": [("v", NUM)]},
 ]
 
 # every variable is answered with a value that has the attributes of all structs, so a
@@ -233,6 +236,9 @@ class Gen:
         for _ in range(r.randint(1, 3)):
             a = self.arg_for(r.choice(["Data", "Inner", "Item", "number"]), vars_, loopvars)
             if a is not None:
+                if a[0] == "lit" and a[1] == "Item":
+                    # few distinct values, and half of them under the twin's name
+                    a = ("lit", r.choice(["Item", "Piece"]), ("obj", [("v", ("num", r.choice(DYADIC[:3])))]))
                 out.append(a)
         return out
 
